@@ -13,8 +13,8 @@ claimed = {
  "C05": ("exploration", "random trees with hostile names and full metadata are packed and unpacked through the real Tar/UnTar, through the five-stage chunked pipeline (Tar -> pipe -> ChunkStream -> index -> UnTarIndex) under the seeded scheduler with a slow store, through GNU-tar and mtree output and (possibly truncated) tar-stream input, under both digests, in the bubble and through the real tar/untar/mtree commands; oracle: metadata+content snapshot equality, byte-identical repeated packing, chunked bytes == direct archive",
          "sampling; metadata fidelity is input coverage (stated partial scope), the simulated part is the chunked pipeline; fifos and sockets not exercised; xattrs/device numbers not compared for mtree output, xattrs/sub-second times not for GNU tar output",
          TECH + " (seeded scheduler over the chunked tar pipeline, snapshot oracle)"),
- "C04": ("fault_enumeration", "generated indexes are written with the real encoder, checked against an independent caibx parser, read back through a fragmenting stream, the local index store and the HTTP index client/server; then every strict prefix (torn write / cut connection), swapped offsets, an over-long chunk and a flipped digest flag must be rejected; casync-made fixtures must re-encode byte-identically",
-         "exhaustive over prefixes of each generated file (stream mode; <= 600 evenly spaced prefixes per file through stores); the round-trip half is input coverage, not simulation (stated partial scope); console and S3 index stores not exercised",
+ "C04": ("fault_enumeration", "generated indexes are written with the real encoder, checked against an independent caibx parser, read back through a fragmenting stream, the local, HTTP, S3 and SFTP index stores and (process level) the list-chunks/info/make commands with files and standard input/output; then every strict prefix (torn write / cut connection), swapped offsets, an over-long chunk and a flipped digest flag must be rejected; casync-made fixtures must re-encode byte-identically",
+         "exhaustive over prefixes of each generated file (stream mode; <= 600 evenly spaced prefixes per file through stores); the round-trip half is input coverage, not simulation (stated partial scope); console index store at process level only (list-chunks, info, make -)",
          TECH + " (stream/stored-index fault enumeration, independent parser as oracle)"),
  "C19": ("fault_enumeration", "valid indexes, catar fixtures and protocol message streams are fed to the real decoders through a reader that truncates at every byte, sets every element size field to each critical value (0, <16, 16, 17, ..., size+-1, 2^20, 2^50, 2^63, 2^64-1), replaces type fields, flips bits, fragments reads and fails; oracle: no panic, allocation <= 8*len+128 KiB, reader errors surface",
          "only faulted valid streams are explored, not all byte strings (stated partial scope); sizes between 2^31 and 2^47 are not injected; catar inputs are the repository fixtures",
